@@ -281,6 +281,22 @@ theorem C20_gen_ensure_atomic :
     okIs (genEnsure "/cg/cpu/a/b" ["/cg/cpu"]) ("created", ["mkdirall /cg/cpu/a", "mkdir /cg/cpu/a/b"]) = true ∧
     okIs (genEnsure "/cg/cpu/a" ["/cg/cpu", "/cg/cpu/a"]) ("ErrExist", ["mkdirall /cg/cpu", "mkdir-eexist /cg/cpu/a"]) = true := by decide +kernel
 
+/-- **creation is one atomic mkdir, and Existing() is its EEXIST** (regenerated `(*V2).New`, `(*V2).Nest`,
+`newV2` on small worlds): the handle reports `existing` exactly when the mkdir of the group's own
+directory found it there, nothing is stat'ed first, intermediate path elements of a prefix are
+created without claiming them, a trailing slash does not change ownership, and `Nest` moves the
+parent's processes. This is `ostep (.mk h d)` for the v2 code. -/
+theorem C20_gen_v2_create :
+    okIs (genNewSubV2 false "/cg/top" "a" ["/cg/top"]) (false, "/cg/top/a", ["/cg/top", "/cg/top/a"], ["mkdir /cg/top/a"]) = true ∧
+    okIs (genNewSubV2 false "/cg/top" "a" ["/cg/top", "/cg/top/a"]) (true, "/cg/top/a", ["/cg/top", "/cg/top/a"], ["mkdir-eexist /cg/top/a"]) = true ∧
+    okIs (genNewSubV2 true "/cg/top" "a" ["/cg/top"]) (false, "/cg/top/a", ["/cg/top", "/cg/top/a"], ["mkdir /cg/top/a", "addproc 2"]) = true ∧
+    okIs (genNewSubV2 true "/cg/top" "a" ["/cg/top", "/cg/top/a"]) (true, "/cg/top/a", ["/cg/top", "/cg/top/a"], ["mkdir-eexist /cg/top/a", "addproc 2"]) = true ∧
+    okIs (genNewV2 "x/y" ["/cg"]) (false, "/cg/x/y", ["/cg", "/cg/x", "/cg/x/y"], ["mkdir /cg/x", "mkdir /cg/x/y"]) = true ∧
+    okIs (genNewV2 "x/y" ["/cg", "/cg/x"]) (false, "/cg/x/y", ["/cg", "/cg/x", "/cg/x/y"], ["mkdir-eexist /cg/x", "mkdir /cg/x/y"]) = true ∧
+    okIs (genNewV2 "x/y" ["/cg", "/cg/x", "/cg/x/y"]) (true, "/cg/x/y", ["/cg", "/cg/x", "/cg/x/y"], ["mkdir-eexist /cg/x", "mkdir-eexist /cg/x/y"]) = true ∧
+    okIs (genNewV2 "x/" ["/cg"]) (false, "/cg/x", ["/cg", "/cg/x"], ["mkdir /cg/x", "mkdir-eexist /cg/x"]) = true := by
+  decide +kernel
+
 /-- AddProc of the regenerated v1 code writes the pid to every controller of the handle -/
 theorem C20_gen_addproc_all :
     okIs (genAddProcV1 ["/cg/cpu/a", "/cg/mem/a", "/cg/pids/a"]) ["addproc /cg/cpu/a", "addproc /cg/mem/a", "addproc /cg/pids/a"] = true := by decide +kernel
